@@ -216,6 +216,9 @@ func runRetryOne(o retryOp) (ans, oracle string, witness bool, hits []string) {
 	cancel := func() {}
 	closedFlag := false
 	home := func(i int) string {
+		if len(o.kinds) > 0 && o.kinds[0] == 'M' {
+			return nodeA
+		}
 		if i%2 == 0 {
 			return nodeA
 		}
@@ -226,6 +229,22 @@ func runRetryOne(o retryOp) (ans, oracle string, witness bool, hits []string) {
 			return nodeB
 		}
 		return nodeA
+	}
+	tx := len(o.kinds) > 0 && o.kinds[0] == 'M' // probe batches: MULTI first, EXEC last, every key in one slot
+	idxOf := func(a []string) int {
+		if isCmd(a, "MULTI") {
+			return 0
+		}
+		if isCmd(a, "EXEC") {
+			return len(o.kinds) - 1
+		}
+		return rtIndex(a)
+	}
+	keyOf := func(i int) string {
+		if tx {
+			return "{b}" + strconv.Itoa(i)
+		}
+		return rtKey(i)
 	}
 	trigger := func(k int) { // runs while the k-th call is being answered
 		if (o.ctx == "c"+strconv.Itoa(k)) || (o.ctx == "dlc"+strconv.Itoa(k)) {
@@ -261,7 +280,7 @@ func runRetryOne(o retryOp) (ans, oracle string, witness bool, hits []string) {
 		case isCmd(a, "ASKING"):
 			return okResult()
 		}
-		idx := rtIndex(a)
+		idx := idxOf(a)
 		if idx < 0 || idx >= len(scripts) {
 			return okResult()
 		}
@@ -316,7 +335,7 @@ func runRetryOne(o retryOp) (ans, oracle string, witness bool, hits []string) {
 		return rueidis.NewErrorResult(errBoom)
 	}
 	delayFn := func(attempts int, cmd rueidis.Completed, err error) time.Duration {
-		idx := rtIndex(cmd.Commands())
+		idx := idxOf(cmd.Commands())
 		var v int64
 		if idx >= 0 && idx < len(o.delay) {
 			v = delayAt(o.delay[idx], attempts)
@@ -382,11 +401,15 @@ func runRetryOne(o retryOp) (ans, oracle string, witness bool, hits []string) {
 	mk := func(i int) rueidis.Completed {
 		switch o.kinds[i] {
 		case 'w':
-			return b.Set().Key(rtKey(i)).Value("v").Build()
+			return b.Set().Key(keyOf(i)).Value("v").Build()
 		case 'm':
-			return b.Set().Key(rtKey(i)).Value("v").Build().ToRetryable()
+			return b.Set().Key(keyOf(i)).Value("v").Build().ToRetryable()
+		case 'M':
+			return b.Multi().Build()
+		case 'E':
+			return b.Exec().Build()
 		}
-		return b.Get().Key(rtKey(i)).Build()
+		return b.Get().Key(keyOf(i)).Build()
 	}
 	var results []rueidis.RedisResult
 	panicked := false
